@@ -114,6 +114,10 @@ type harness struct {
 	cycleClean     bool
 	cycleN         int
 	cycleScanStart int64
+	cycleAncestor  *core.Entry    // the last-synchronized state the last evaluated cycle started from
+	transReturned  map[string]int // side -> number of the cycle whose Transition call last returned
+	crashArchive   *core.Entry    // set by noteCrash: what the archive must still hold after this crash
+	crashArchiveOn bool
 	resetSeq       int64 // sequence at which the last Reset returned (0: none pending a first cycle)
 	cycleFresh     bool  // both scans of the last evaluated cycle were verified equal to the disk
 	expectedPost   map[string]*core.Entry
@@ -166,6 +170,17 @@ func (h *harness) mirrorInit() {
 	if !h.preserve["beta"] {
 		h.trees["beta"] = withoutExec(h.trees["beta"])
 	}
+	h.mu.Unlock()
+}
+
+// noteTransitionReturned records that the Transition call of the current cycle
+// on this side has returned (whatever it returned).
+func (h *harness) noteTransitionReturned(side string) {
+	h.mu.Lock()
+	if h.transReturned == nil {
+		h.transReturned = map[string]int{}
+	}
+	h.transReturned[side] = h.cycleN
 	h.mu.Unlock()
 }
 
@@ -328,6 +343,7 @@ func (e *modelEndpoint) Supply(paths []string, signatures []*rsync.Signature, re
 func (e *modelEndpoint) Transition(ctx context.Context, transitions []*core.Change) ([]*core.Entry, []*core.Problem, bool, error) {
 	h := e.h
 	h.enter(e.side, "transition")
+	defer h.noteTransitionReturned(e.side)
 	h.mu.Lock()
 	h.transInFlight[e.side]++
 	h.mu.Unlock()
@@ -570,6 +586,7 @@ func (h *harness) checkPlan(a, b *scanRecord) {
 	prevExact := h.disk != nil && h.cycleClean && h.cycleFresh && h.ideal && h.cycleN == a.n-1 && h.cycleN > 0 &&
 		h.userSeq["alpha"] < h.cycleScanStart && h.userSeq["beta"] < h.cycleScanStart
 	h.cycleClean, h.cycleN = true, a.n
+	h.cycleAncestor = cloneEntry(a.ancestor)
 	h.cycleScanStart = min(a.started, b.started)
 	h.cycleFresh = a.fresh && b.fresh
 	post := func(content *core.Entry, ts []*core.Change) *core.Entry {
